@@ -60,7 +60,7 @@ def _sanitised_distinct(names):
     return len(set(s)) == len(s) and all(s)
 
 
-def gen_sysworld(rng, small=False):
+def gen_sysworld(rng, small=False, blank_names=False):
     # ---- dimensions
     nt = rng.randint(3, 5)
     grid = rng.choice(["unit", "const", "uneven"])
@@ -131,8 +131,10 @@ def gen_sysworld(rng, small=False):
         name = auto
         if auto in seen_names or rng.chance(0.15):
             override = f"{procs[i]} to {procs[j]} #{len(flows)}" if rng.chance(0.7) else f"{procs[j]} {len(flows)} inflow"
+            if blank_names and " " not in seen_names and rng.chance(0.12):
+                override = " "  # a name is a name, also when it is blank (a cell somebody cleared): it is given, not "not given"
             name = override
-        if name in seen_names or not _sanitised_distinct(seen_names + [name]):
+        if name in seen_names or not _sanitised_distinct([n_ for n_ in seen_names + [name] if n_ != " "]):
             continue
         seen_names.append(name)
         flows.append({"from": i, "to": j, "dims": fd, "override": override})
@@ -167,7 +169,7 @@ def _undefined_process(world, k):
     procs = world["processes"]
     last = procs[-1]
     cands = ["no such process", str(len(procs) - 1), "1", "0", last.upper() if last.upper() != last else last.lower(), last + " ", " " + last,
-             last[:-1], "sysenv2"]
+             last[:-1], "sysenv2", " ", ""]
     for j in range(len(cands)):
         c = cands[(k + j) % len(cands)]
         if c not in procs:
